@@ -1,7 +1,7 @@
 use crate::tyme::eightchar::{ChildLimitInfo, EightChar};
 use crate::tyme::lunar::LunarHour;
 use crate::tyme::sixtycycle::SixtyCycleHour;
-use crate::tyme::solar::{SolarMonth, SolarTerm, SolarTime};
+use crate::tyme::solar::{SolarDay, SolarMonth, SolarTerm, SolarTime};
 use crate::tyme::Tyme;
 
 /// 童限计算接口
@@ -84,9 +84,12 @@ impl AbstractChildLimitProvider {
       dc = sm.get_day_count();
     }
 
+    // 按天推移，1582年10月日期不连续（5日至14日不存在）
+    let end_day: SolarDay = SolarDay::from_ymd(sm.get_year(), sm.get_month(), 1).next(d as isize - 1);
+
     ChildLimitInfo {
       start_time: birth_time,
-      end_time: SolarTime::from_ymd_hms(sm.get_year(), sm.get_month(), d, h, mi, s),
+      end_time: SolarTime::from_ymd_hms(end_day.get_year(), end_day.get_month(), end_day.get_day(), h, mi, s),
       year_count: add_year,
       month_count: add_month,
       day_count: add_day,
